@@ -28,6 +28,7 @@ type driver struct {
 	gateParked   int
 	seqCells     int
 	localCells   int
+	deepCells    int
 	cellSamples  map[string]int
 	rounds       map[string]int // per binary
 	requests     int
@@ -74,6 +75,11 @@ func drive() {
 		hi := min(lo+30, len(lc))
 		jobs = append(jobs, job{Kind: "lgate", Locals: lc[lo:hi], Base: lo})
 	}
+	dc := allDeepCells()
+	for lo := 0; lo < len(dc); lo += 5 {
+		hi := min(lo+5, len(dc))
+		jobs = append(jobs, job{Kind: "deep", Deeps: dc[lo:hi], Base: lo})
+	}
 	if !e.Quick() {
 		// thorough: every cell a second time with the other request method (the cell index
 		// fixes GET/POST by parity; the odd offset flips it and keeps owner tokens unique)
@@ -88,6 +94,8 @@ func drive() {
 	// (whose gate cells were just observed to fail) quarantines them
 	sg := !e.Quarantined("superglobals")
 	e.Extra("load_reads_superglobals", sg)
+	deepMethods := !e.Quarantined("deep-method-recursion-under-load")
+	e.Extra("load_recurses_deep_in_methods", deepMethods)
 	per := e.Pick(2, 20)
 	procs := []int{16, 4, 2, 8, 1, 3}
 	type lj struct {
@@ -108,7 +116,7 @@ func drive() {
 		}
 		var rs []round
 		for i := 0; i < nRounds; i++ {
-			rs = append(rs, genRound(r, base+i, sg))
+			rs = append(rs, genRound(r, base+i, sg, deepMethods))
 		}
 		for lo := 0; lo < len(rs); lo += per {
 			hi := min(lo+per, len(rs))
@@ -121,6 +129,7 @@ func drive() {
 	e.Extra("gate_and_local_cells_where_A_was_parked_while_B_ran", d.gateParked)
 	e.Extra("sequential_cells", d.seqCells)
 	e.Extra("local_state_gate_cells", d.localCells)
+	e.Extra("deep_recursion_cells", d.deepCells)
 	e.Extra("load_rounds", d.rounds)
 	e.Extra("load_requests_compared", d.requests)
 	e.Extra("load_requests_nontrivial", d.nontrivReq)
@@ -175,6 +184,9 @@ func (j job) tail(from int) job {
 	case "lgate":
 		c.Locals = j.Locals[from:]
 		c.Base = j.Base + from
+	case "deep":
+		c.Deeps = j.Deeps[from:]
+		c.Base = j.Base + from
 	}
 	return c
 }
@@ -195,6 +207,8 @@ func (j job) replayOf(name string) []byte {
 			one.Seqs = one.Seqs[:1]
 		case "lgate":
 			one.Locals = one.Locals[:1]
+		case "deep":
+			one.Deeps = one.Deeps[:1]
 		}
 		b, _ := json.MarshalIndent(map[string]any{
 			"property":  "C11",
@@ -322,15 +336,20 @@ func (d *driver) absorb(j job, bin string, l outLine) {
 			return
 		}
 		d.evals++
-		if j.Kind == "gate" || j.Kind == "lgate" {
-			if j.Kind == "lgate" {
+		if j.Kind == "gate" || j.Kind == "lgate" || j.Kind == "deep" {
+			switch j.Kind {
+			case "lgate":
 				d.localCells++
-			} else {
+			case "deep":
+				d.deepCells++
+			default:
 				d.gateCells++
 			}
 			if c.Parked {
 				d.gateParked++
-			} else {
+			} else if len(c.Mism) == 0 {
+				// a request that never reached its gate AND answered like alone: nothing was
+				// interleaved (with a mismatch the early end is part of the violation)
 				e.Inconclusive("gate cell " + l.Case + ": " + c.Note)
 			}
 		} else {
